@@ -267,8 +267,10 @@ impl<T: Qcow2IoOps> Qcow2Dev<T> {
                 };
                 if let Err(e) = self.call_read(off, buf).await {
                     // not loaded: let the next user of this pending entry
-                    // retry, instead of taking it as update
+                    // retry, instead of taking it as update, and don't let
+                    // anyone else commit it to the cache
                     slice.set_offset(None);
+                    cache.remove_from_wmap(&key);
                     return Err(e);
                 }
                 log::trace!("add_cache_slice: load from disk");
